@@ -576,6 +576,26 @@ def run(ctx: Ctx):
                                {"source": src, "path": path, "driver_answer": a})
             if d != "acc":
                 n_mirror_diff += 1
+    # the upstream reference designs as a corpus: the certificate must hold for every process of each of them
+    from .corpus import compile_corpus
+    corpus = compile_corpus(export_tcode)
+    creqs, cwhere = [], []
+    for item in corpus:
+        for d in item["designs"]:
+            for t in d.get("extra", []) or []:
+                creqs.append(f"check {t}")
+                cwhere.append((item["path"].split("reference_builds/")[-1], d["entity"]))
+    n_corpus_bad = 0
+    for (path, ent), a in zip(cwhere, lean_io.query("C08", creqs)):
+        dd, ss, pp = a.split(" ")
+        ctx.case(key=("corpus", path, ent, len(ctx.distinct)), nontrivial=True, kind="corpus-process")
+        if ss != "ok":
+            n_corpus_bad += 1
+            ctx.report(f"c08:corpus-certificate:{path}:{ent}",
+                       f"a process of the upstream design {path}::{ent} reads a compiler-generated intermediate before writing it on the branch path {pp}",
+                       {"design": path, "entity": ent, "path": pp, "driver_answer": a})
+    ctx.obligation("certificates: safe(real IR skeleton) = ok for every process of every compilable upstream reference design",
+                   n_corpus_bad == 0 and len(creqs) > 50, kind="certificate", detail=f"{len(creqs)} processes of {sum(len(i['designs']) for i in corpus)} designs, {n_corpus_bad} failed")
     ctx.obligation("oracle: every generated body with a use not dominated by a definition is rejected by the compiler",
                    n_unsafe_acc == 0, detail=f"{n_acc} accepted, {n_rej} rejected, {n_unsafe_acc} unsafe accepted")
     ctx.obligation("certificates: safe(real IR skeleton) = ok for every process of every accepted design (C08.safe_sound)",
